@@ -31,12 +31,12 @@ CHECKS = {
         technique="fault injection + runtime monitor: every truncation and every single-byte alteration of valid checksummed snapshots through the real parser/expansion, sampled through Send; target error at every write; cancellation at every target request, at every snapshot byte handed to the parser, and right after the last byte is parsed",
         text="Exhaustive per snapshot for the byte sweeps and per observed request sequence for error/cancel points (not over schedules). Oracle: error reported, "
              "no resume position at the snapshot offset, call returns, process survives (worker processes; crash/hang/memory growth is a violation after two isolated confirmations); "
-             "a replay reported complete must have applied every key; after every Send the SAME instance is asked for its start point again (in-process re-run), bisync scenarios draw sync/pipeline/parallel and may be primed with an earlier completed snapshot.",
+             "a replay reported complete must have applied every key; after every Send the SAME instance is asked for its start point again (in-process re-run), bisync scenarios draw sync/pipeline/parallel and may be primed with an earlier completed snapshot. Target errors in eight reply classes (ERR, LOADING, TRYAGAIN, CLUSTERDOWN, MASTERDOWN, OOM, READONLY, BUSY), one-shot or a target that keeps refusing from that write on; 'reported complete' is judged on what was applied.",
         design="DESIGN.md §3 C04", note="CRC64 detects all single-byte alterations; cancellation is delivered at logical instants of the double; " + TRUST),
     "C08": dict(level="fault_enumeration", engine="prf+child",
         technique="crash-image sampling: a live writer child process is SIGSTOPped at aimed/PRNG instants, its directory copied and reopened by a fresh StoreChannel; served bytes compared with PRF(offset); closed segments altered and reopened with verifyCrc",
         text="Hundreds (quick) / thousands (thorough) of frozen directory images over all write phases incl. kill-and-restart chains and mid-removal images, classified by "
-             "structural signature; instants are sampled, not exhaustive; required phases enforced by count. A third of the chains start just below a power of ten (segment names of different width); a reported range must not end before the newest data segment of the image. Hostile chains: writes refused through RLIMIT_FSIZE in the child (first chunk / mid-snapshot / last chunk / log segment, partial writes), Close at the last chunk; the child sweeps its own live cache after a refused log write and after restart + collector with a lagging reader (valid offsets readable, PRF bytes, never beyond Right(), stall by logical quiescence).",
+             "structural signature; instants are sampled, not exhaustive; required phases enforced by count. A third of the chains start just below a power of ten (segment names of different width); a reported range must not end before the newest data segment of the image. Hostile chains: writes refused through RLIMIT_FSIZE in the child (first chunk / mid-snapshot / last chunk / log segment, partial writes), Close at the last chunk; the child sweeps its own live cache after a refused log write and after restart + collector with a lagging reader (valid offsets readable, PRF bytes, never beyond Right(), stall by logical quiescence). Fourth image class: every subset of files a torn directory removal can leave (all subsets up to five files, directed and sampled ones beyond).",
         design="DESIGN.md §3 C08", note="a stopped process performs no syscalls, so the copy is an exact kill-point image of the page cache; fsync ordering of a power loss is not modelled"),
     "C20": dict(level="exploration", engine="fullsync+rdbx",
         technique="runtime oracle as C03 with a pre-populated target double under each key-exists policy; existing keys compared bit-for-bit before/after and against the request log",
@@ -52,12 +52,12 @@ CHECKS = {
     "C17": dict(level="fault_enumeration", engine="fakeredis+hooks",
         technique="crash sweep over every request prefix of each bookkeeping maintenance operation (real start-up bookkeeping and GC body through build-tag hooks); next start with the new configuration must find a position >= the one before, in the same DB",
         text="Checkpoint rename, re-key after failover (newOutput and SetRunId), bisync replay-mode switches (all six pairs, states produced by the real tool), stale-checkpoint GC at "
-             "five clock positions; 1-8 non-empty DBs, map-order sampling by repetition; exhaustive per observed request sequence. In-process re-key (SetRunId) additionally with each single request answered by an error once, followed by the tool's own retry.; entries of other replication ids must survive every stop point; GC tick overlapping a re-key after a failover; stale copy under a rename destination name",
+             "five clock positions; 1-8 non-empty DBs, map-order sampling by repetition; exhaustive per observed request sequence. In-process re-key (SetRunId) additionally with each single request answered by an error once, followed by the tool's own retry.; entries of other replication ids must survive every stop point; GC tick overlapping a re-key after a failover; stale copy under a rename destination name Thorough tier: lost-reply sweep of the bisync format switch (one request executed, its connection closed before the reply, second attempt, next start).",
         design="DESIGN.md §3 C17", note=TRUST + "; HGETALL order of the double is sorted (ids constrained so both orders agree)"),
     "C19": dict(level="exploration", engine="fakeredis cluster role",
         technique="runtime monitor: globally ordered per-node effect logs of a multi-node cluster double (routing by independent HASH_SLOT, MIGRATING/IMPORTING/ASK/MOVED/TRYAGAIN semantics) under scripted migration schedules; per-key segment oracle + resume-position clause",
         text="Real RedisOutput with a cluster client against 3-5 node doubles; schedules: none, MOVED between/mid batch, ASK windows with existing/missing keys, back-and-forth, node added; "
-             "blocking/pipelined, transactional/non-transactional; slot-table refresh released between two Puts of one batch; two connection-fault schedules (reset mid-batch, connection lost before the first reply); writes with a legal null-bulk reply in every mode; schedule abandoned-node-worker (one node resets, another stalls until the restarted run has overtaken it). Two known findings (non-atomic node pipelines: the reported flavour, and the silent bounce inversion of the blocking non-transactional sender) are listed in known_findings.json.",
+             "blocking/pipelined, transactional/non-transactional; slot-table refresh released between two Puts of one batch; two connection-fault schedules (reset mid-batch, connection lost before the first reply); writes with a legal null-bulk reply in every mode; schedule abandoned-node-worker (one node resets, another stalls until the restarted run has overtaken it). Two known findings (non-atomic node pipelines: the reported flavour, and the silent bounce inversion of the blocking non-transactional sender) are listed in known_findings.json. Order signatures carry the run outcome and, for acknowledged disorders, whether the sender's own batch retry repaired them (healed=in-run-retry).",
         design="DESIGN.md §3 C19", note="the double enforces 'executed by the owner'; slots from internal/ref.HashSlot; " + TRUST),
     "C05": dict(level="exploration", engine="chanmodel",
         technique="runtime monitor at the Channel boundary of both cache backends against a byte-by-offset model (PRF bytes identify their origin); sequential generated op histories + concurrent writer/readers/collector/pollers under the race detector with interval-bound checks",
@@ -66,7 +66,7 @@ CHECKS = {
         design="DESIGN.md §3 C05", note="workloads stay inside the call protocol RedisInput uses; liveness is judged by logical quiescence (ended reader / starved-by-collector) or by a differential second reader at the stalled offset; a stall without such evidence is inconclusive"),
     "C13": dict(level="exploration", engine="fakeredis propagation",
         technique="two site doubles that propagate what a master would (rewrites, no-op omission, MULTI/EXEC) closed into a loop through two real bisync RedisOutputs; origin-tagged client writes; echo / exactly-once / look-alike / ping-pong oracles decided at two-phase sentinels",
-        text="Replay modes sync/pipeline/parallel, five filter classes incl. the documented prefix whitelist, snapshot and incremental phases, late reverse link, replication-lag windows producing shrunk mirrored transactions, Redis 7 SELECT-inside-MULTI propagation with clients in databases 0-3, link restarts (orderly / lost EXEC reply) through the real start-up path, reference filter projection with byte-identical delivery. Master heartbeat (PING) in every loop with idle heartbeat rounds in which no unit - empty or not - may be forwarded; twelve directed cases of a link's own unit arriving behind the deletion of its expired marker.",
+        text="Replay modes sync/pipeline/parallel, five filter classes incl. the documented prefix whitelist, snapshot and incremental phases, late reverse link, replication-lag windows producing shrunk mirrored transactions, Redis 7 SELECT-inside-MULTI propagation with clients in databases 0-3, link restarts (orderly / lost EXEC reply) through the real start-up path, reference filter projection with byte-identical delivery. Master heartbeat (PING) in every loop with idle heartbeat rounds in which no unit - empty or not - may be forwarded; twelve directed cases of a link's own unit arriving behind the deletion of its expired marker. Snapshot phase against a peer that already holds every second key (keyExists replace / ignore); directed probes: the marker of an effectless snapshot unit propagated alone (bare, or as a one-command transaction).",
         design="DESIGN.md §3 C13", note="internal/fakeredis role_propagate models a master's propagation (Redis 6.2/7.2 single-command transaction rule); both sites standalone; " + TRUST),
     "C14": dict(level="fault_enumeration", engine="bisweep",
         technique="request-prefix crash sweep + clean-stop schedule of bisync incremental replay (all three modes) with restart chains through the real start-up bookkeeping; oracles over unit table, frontier/latest/journal keys and StartPoint of successive starts; exhaustive RebuildBisyncFrontier subset check",
@@ -75,13 +75,13 @@ CHECKS = {
         design="DESIGN.md §3 C14", note=TRUST),
     "C16": dict(level="exploration", engine="grpc+channels",
         technique="runtime monitor: real ReplicaLeader behind a real gRPC server (stream wrapped to cut after message k) and real ReplicaFollower over both cache backends; follower cache read back and compared with PRF(run id, offset) and with the leader",
-        text="54 leader x follower state pairs x 4 backend combinations, live appends, cuts at every k of small transfers, leader restarts under another id, fresh-process reopen of disk followers. Source fail-over (+CONTINUE new id) before the first request / after the snapshot / while tailing, judged against the joined history; second phase with channel.verifyCrc and a leader log rotating under the follower's tail.",
+        text="54 leader x follower state pairs x 4 backend combinations, live appends, cuts at every k of small transfers, leader restarts under another id, fresh-process reopen of disk followers. Source fail-over (+CONTINUE new id) before the first request / after the snapshot / while tailing, judged against the joined history; second phase with channel.verifyCrc and a leader log rotating under the follower's tail. Scenario cutcollect: the transfer is cut, the leader takes in more than its size limit while no follower is served (the follower's position is collected), then serves again and goes on sending.",
         design="DESIGN.md §3 C16", note="non-contiguity decided by API probes, never by a stall timer"),
     "C07": dict(level="fault_enumeration", engine="sweep",
         technique="runtime monitor over the ordered list of <runid>_offset writes observed at the target, idle-heavy feeding plans and restart sequences",
         text="Every value written to the resume-position field during base and resumed runs is checked against the generated stream's command-end "
              "offset table and for monotonicity across restarts; feeding plans idle before the first item longer than each ticker; a restart that "
-             "finds no usable position although one was stored is a violation.",
+             "finds no usable position although one was stored is a violation. Cluster class: three-node cluster double, non-transactional replay (blocking and pipelined), position writes that arrive 4-25 ms late on their connection, judged in the order the cluster executed them.",
         design="DESIGN.md §3 C07", note=TRUST),
     "C09": dict(level="fault_enumeration", engine="sweep",
         technique="runtime monitor: per-command target transaction ids vs source MULTI/EXEC groups, at every crash prefix and after restart",
@@ -97,23 +97,23 @@ CHECKS = {
     "C11": dict(level="exploration", engine="ref",
         technique="differential runtime oracle vs bit-wise CRC16/HASH_SLOT reference; exhaustive small-alphabet enumeration + PRNG keys",
         text="redis.KeyToSlot, cluster.GetSlot, FilterSlot decisions and every bisync control-key builder for all 16384 slot tags are compared with "
-             "an independent HASH_SLOT implementation validated against the spec's check values.",
+             "an independent HASH_SLOT implementation validated against the spec's check values. The calling pattern of the checkpoint-key search: one buffer rewritten in place, candidates handed over as strings that alias it, sequentially and from eight goroutines.",
         design="DESIGN.md §3 C11", note="internal/ref.HashSlot is the specification (validated against published vectors)"),
     "C12": dict(level="exploration", engine="ref",
         technique="runtime oracle: decoder output and offsets vs generator's offset table under arbitrary buffering/fragmentation; encode/decode round trips",
         text="Generated multi-bulk streams (0-64 args, empty/binary/MiB args) decoded through bufio sizes 16B-1MiB over fragmenting readers; "
-             "arguments byte-identical, cumulative offsets equal bytes consumed, WriteArgs/Encode round trips checked by an independent strict parser.",
+             "arguments byte-identical, cumulative offsets equal bytes consumed, WriteArgs/Encode round trips checked by an independent strict parser. Very wide commands (up to 2^20+4097 elements; 3 million in thorough).",
         design="DESIGN.md §3 C12", note="generator's own RESP writer is the reference"),
     "C15": dict(level="exploration", engine="leasestore+minilua+porcupine",
         technique="recorded call/return histories of Campaign/Renew/Resign/Leader checked with porcupine against a sequential lease model + belief-interval overlap monitor on a virtual clock",
         text="2-6 contenders with own connections against a lease-store double that executes the tool's Lua scripts (interpreter), virtual clock "
-             "advanced only at quiescent points, reply loss and connection resets; porcupine linearizability per burst and whole-run invariants. Also: one request of a Resign delivered late across clock steps, concurrent calls of the same instance on a sibling shard over the shared lease client, calls with a deadline whose reply arrives after it. Clause (vi): the real election ticker of cmd/syncer.go (build-tag hook) with a scripted election - after a tick whose renewals/campaign failed no election call with a live context is made and the syncer's wait is closed with the failure; decided on the call log.",
+             "advanced only at quiescent points, reply loss and connection resets; porcupine linearizability per burst and whole-run invariants. Also: one request of a Resign delivered late across clock steps, concurrent calls of the same instance on a sibling shard over the shared lease client, calls with a deadline whose reply arrives after it. Clause (vi): the real election ticker of cmd/syncer.go (build-tag hook) with a scripted election - after a tick whose renewals/campaign failed no election call with a live context is made and the syncer's wait is closed with the failure; decided on the call log. A third of the histories use a cluster-type lease store (one pooled connection per command); half of their late-delivered Resign calls carry a 150 ms deadline - a call that gives up leaves its request on its way and the instance goes on calling.",
         design="DESIGN.md §3 C15", note="internal/leasestore + internal/minilua execute the scripts the tool sends; Redis expiry rule now > expireAt"),
     "C18": dict(level="exploration", engine="fakeredis cluster role",
         technique="runtime monitor over the cluster-wide request log of a 3-4 node cluster double driven by the real bisync RedisOutput (snapshot + stream, all replay modes); every MULTI block reconstructed per node/connection and judged by independent HASH_SLOT and key-position tables",
         text="Generated snapshots and streams with 23 brace shapes / 8 key classes; units: single-slot, GETKEYS-resolved, filter-reduced, filtered-out, cross-slot, undeterminable, behind a refusal; "
              "oracle: each block touches one slot at its owner (business + marker/latest/commit/index control keys), no redirect served, single-slot units commit exactly, refusable units end Send with an error and nothing of them or later units is sent. "
-             "Refusal-report probes repeat the cheapest refusal many times (race between parser error and sender nil).",
+             "Refusal-report probes repeat the cheapest refusal many times (race between parser error and sender nil). One case in six runs against a cluster of a single primary that serves every slot; pairs of COMMAND GETKEYS-resolved units with the same name and argument count but different key positions.",
         design="DESIGN.md §3 C18", note="slots and key positions from internal/ref; the double enforces slot ownership; gates on logical events (EXEC applied), not timers; " + TRUST),
 }
 
